@@ -206,6 +206,7 @@ def run(ctx):
         ('issorted', 1, lambda t: [[etl.issorted(t, 'x'), etl.issorted(t, 'x', strict=True), etl.issorted(t, 'x', reverse=True, strict=True)]]),
     ], 240 if ctx.thorough() else 60)
     util.exotic_key_cases(etl, rng, ctx, 'C05', 200 if ctx.thorough() else 50)
+    util.positional_call_cases(etl, rng, ctx, ['sort'], 120 if ctx.thorough() else 36, 1)
 
 def replay(d):
     print('replay case:', d.get('case'))
